@@ -276,7 +276,12 @@ def event_model(draw, max_states=5, max_events=5, kinds="TBD", limits=False, tra
         n_tr = draw(st.sampled_from([1, 1, 1, 2, 2, 3]))
         ks = "T" if transition_only else kinds
         trs = draw(transitions_for_event(states, params, (), n_tr, kinds=ks, integer_mag=True, mag_hi=mag_hi))
-        net = sum((t["mag"]["int"] if t["kind"] == "B" else -t["mag"]["int"] if t["kind"] == "D" else 0) for t in trs)
+        # a transfer out of a state that has no lower limit is an unlimited source, i.e. a birth as far as growth goes;
+        # a death out of such a state removes nothing that could run out
+        def _no_lower(nm):
+            return lim_kind[nm] in ("none_hi", "none_none")
+        net = sum((t["mag"]["int"] if t["kind"] == "B" or (t["kind"] == "T" and _no_lower(t["o"])) else
+                   -t["mag"]["int"] if (t["kind"] == "D" and not _no_lower(t["o"])) else 0) for t in trs)
         unbounded_up = any(lim_kind[t["d"]] in ("default", "zero_none", "lo_none", "none_none")
                            for t in trs if t["kind"] == "B")
         bounded = net > 0 or unbounded_up
